@@ -57,10 +57,29 @@ func (r *Request) GetResponse(done <-chan struct{}, respDuration time.Duration) 
 
 // HandlePFCPMsg handles different types of PFCP messages.
 func (pConn *PFCPConn) HandlePFCPMsg(buf []byte) {
+	if released := pConn.handlePFCPMsg(buf); released {
+		pConn.Shutdown()
+	}
+}
+
+// handlePFCPMsg handles one message and reports whether it released the association, in
+// which case the caller shuts the connection down. Messages are handled under handleMu,
+// which Shutdown also takes: a request is never processed while the connection's sessions
+// are being removed (it could re-install what is being deleted), nor afterwards.
+func (pConn *PFCPConn) handlePFCPMsg(buf []byte) (released bool) {
 	var (
 		reply message.Message
 		err   error
 	)
+
+	pConn.handleMu.Lock()
+	defer pConn.handleMu.Unlock()
+
+	select {
+	case <-pConn.shutdown:
+		return false
+	default:
+	}
 
 	// A panic while decoding or handling one datagram (the PFCP decoders do not validate
 	// every embedded length) must not take down the agent and every other association
@@ -96,7 +115,7 @@ func (pConn *PFCPConn) HandlePFCPMsg(buf []byte) {
 
 	case message.MsgTypeAssociationReleaseRequest:
 		reply, err = pConn.handleAssociationReleaseRequest(msg)
-		defer pConn.Shutdown()
+		released = reply != nil
 
 	// Session related messages
 	case message.MsgTypeSessionEstablishmentRequest:
@@ -133,6 +152,8 @@ func (pConn *PFCPConn) HandlePFCPMsg(buf []byte) {
 	if reply != nil {
 		pConn.SendPFCPMsg(reply)
 	}
+
+	return released
 }
 
 func (pConn *PFCPConn) SendPFCPMsg(msg message.Message) {
